@@ -4,6 +4,7 @@ From AQ Require Import proofs.CodecProofs proofs.VarintProofs proofs.AckFramePro
 From AQ Require Import proofs.TlsListProofs proofs.TlsRoundtrip proofs.TlsTotal proofs.TlsDumpInverse.
 From AQ Require Import gen.C17Bits proofs.CBitsProofs gen.C17Blocks proofs.TlsNested proofs.TlsReencode.
 From AQ Require Import proofs.AckReencode proofs.HeaderReencode proofs.TlsReencodeExt proofs.TlsReencodeExt2 proofs.TlsReencodeCH proofs.TlsReencodeWitness proofs.TlsReencodeCanon.
+From AQ Require Import model.HeaderAt proofs.HeaderAtProofs gen.C17Header proofs.HeaderAtSource.
 
 (* ---- variable-length integers (RFC 9000 section 16) ---- *)
 Theorem varint_roundtrip : forall v rest, 0 <= v < 2 ^ 62 ->
@@ -742,3 +743,65 @@ Theorem header_reencode_not_canonical_refuted :
   (push_uint16 (Z.lor 16384 16384) = Ok [64; 0] /\ pull_uint_var [64; 0] = Ok (0, [])).
 Proof. exact HeaderReencode.header_reencode_not_canonical_refuted. Qed.
 Print Assumptions header_reencode_not_canonical_refuted.
+
+(* ---- packet headers at an explicit offset of the datagram; the walk over coalesced packets (s17) ----
+   model/HeaderAt.v keeps buf.tell() / buf.capacity absolute, as packet.py writes them; the tie runs it against the
+   real function on Buffers positioned at non-zero offsets. *)
+Theorem header_buf_is_suffix : forall hcl cap bs, pull_quic_header_buf hcl cap bs = pull_quic_header hcl bs.
+Proof. exact HeaderAtProofs.header_buf_is_suffix. Qed.
+Print Assumptions header_buf_is_suffix.
+
+Theorem header_pull_total_at_offset : forall hcl data start, bytes_ok data -> 0 <= start <= Zlen data ->
+  match pull_quic_header_at hcl data start with
+  | Ok (h, rest) =>
+      suffix rest data /\ start < tell (Zlen data) rest /\ tell (Zlen data) rest <= start + h_length h /\
+      start + h_length h <= Zlen data /\
+      (h_type h <> PT_ONE_RTT -> Zlen (h_dcid h) <= 20 /\ Zlen (h_scid h) <= 20)
+  | Err k => k = E_READ \/ k = E_VALUE
+  end.
+Proof. exact HeaderAtProofs.header_pull_total_at_offset. Qed.
+Print Assumptions header_pull_total_at_offset.
+
+Theorem walk_total : forall fuel hcl data start, bytes_ok data -> 0 <= start <= Zlen data ->
+  let '(l, st) := walk fuel hcl data start in
+  chain start (Zlen data) l /\ (st = 0 \/ st = E_READ \/ st = E_VALUE).
+Proof. exact HeaderAtProofs.walk_total. Qed.
+Print Assumptions walk_total.
+
+Theorem walk_never_seeks_out : forall fuel hcl data start, bytes_ok data -> 0 <= start <= Zlen data ->
+  snd (walk fuel hcl data start) <> E_SEEK.
+Proof. exact HeaderAtProofs.walk_never_seeks_out. Qed.
+Print Assumptions walk_never_seeks_out.
+
+Theorem walk_fuel : forall hcl data, bytes_ok data -> forall f1 f2 start, 0 <= start <= Zlen data ->
+  Z.of_nat f1 > Zlen data - start -> Z.of_nat f2 > Zlen data - start ->
+  walk f1 hcl data start = walk f2 hcl data start.
+Proof. exact HeaderAtProofs.walk_fuel. Qed.
+Print Assumptions walk_fuel.
+
+Theorem coalesced_roundtrip : forall hcl pkts bl, Forall lpkt_ok pkts -> Forall2 lpkt_bytes pkts bl ->
+  forall f pre post,
+  walk (length bl + f) hcl (pre ++ concat bl ++ post) (Zlen pre) =
+  let '(tl, st) := walk f hcl (pre ++ concat bl ++ post) (Zlen pre + Zlen (concat bl)) in
+  (bounds (Zlen pre) bl ++ tl, st).
+Proof. exact HeaderAtProofs.coalesced_roundtrip. Qed.
+Print Assumptions coalesced_roundtrip.
+
+Theorem coalesced_roundtrip_long_only : forall hcl pkts bl, Forall lpkt_ok pkts -> Forall2 lpkt_bytes pkts bl ->
+  receive_walk hcl (concat bl) = (bounds 0 bl, 0).
+Proof. exact HeaderAtProofs.coalesced_roundtrip_long_only. Qed.
+Print Assumptions coalesced_roundtrip_long_only.
+
+Theorem coalesced_roundtrip_with_short : forall pkts bl spin kp pcid pn payload,
+  Forall lpkt_ok pkts -> Forall2 lpkt_bytes pkts bl -> (spin = 0 \/ spin = 1) -> (kp = 0 \/ kp = 1) ->
+  exists sb, flatten (builder_short_header spin kp pcid pn) = Ok sb /\
+    let data := concat bl ++ sb ++ payload in
+    receive_walk (Zlen pcid) data = (bounds 0 bl ++ [(Zlen (concat bl), Zlen data)], 0).
+Proof. exact HeaderAtProofs.coalesced_roundtrip_with_short. Qed.
+Print Assumptions coalesced_roundtrip_with_short.
+
+(* the parser assembled from the truncation test / packet_length / Retry token size expressions that
+   tools/gen/c17_header.py reads from pull_quic_header on this run IS the offset-explicit model *)
+Theorem header_src_matches_model : forall hcl cap bs, pull_quic_header_src hcl cap bs = pull_quic_header_buf hcl cap bs.
+Proof. exact HeaderAtSource.src_matches_model. Qed.
+Print Assumptions header_src_matches_model.
